@@ -85,6 +85,9 @@ def real_conditions(tname, dlen=3, slen=2, via='engine', gseed=0, refcheck=False
             y, m, d = 2024, 12, 7      # concrete date: only the dates template has a symbolic one
         txn = _mk_txn(desc, amount, fk, src, y, m, d)
         if via == 'engine':
+            # the same engine has just classified a sibling row: same description, amount and date, other source and custom field
+            # (a card payment that shows up in two exports); only the transaction itself may decide the result
+            eng.match(dict(txn, source='ZZ', field={'k': 'ZZ'}))
             res = eng.match(dict(txn))
             got = (res.matched, res.merchant, res.category, res.subcategory)
             got_rule = res.matched_rule
